@@ -921,7 +921,13 @@ func (pr *printer) source() string {
 		if p.LineDirs {
 			// what a preprocessor leaves behind: the following lines claim to come
 			// from another file, at line numbers that go down
-			fmt.Fprintf(&b, "//line %s.tmpl:%d\n", p.Name, 100000-1000*i)
+			if (p.nameOffset()/23)%3 == 0 {
+				// ... or all at the same place: every option then has the same
+				// announced position
+				fmt.Fprintf(&b, "//line %s.tmpl:7\n", p.Name)
+			} else {
+				fmt.Fprintf(&b, "//line %s.tmpl:%d\n", p.Name, 100000-1000*i)
+			}
 		}
 		b.WriteString(strings.ReplaceAll(indent(indent(o+",")), "\x00", ""))
 	}
